@@ -344,11 +344,17 @@ def _trace_passive_native(prog, x):
         plain = Interpreter(p2).to_ast()
     except Exception:
         return True
+    seen = []
+
+    class T(tracing.Trace):
+        def on_opcode(self, opcode):
+            seen.append(opcode.name)       # the tracer's own hook: independent of how the report is laid out
+            return super().on_opcode(opcode)
+
     with contextlib.redirect_stdout(buf):
-        traced = tracing.Trace(Interpreter(p1)).run()
+        traced = T(Interpreter(p1)).run()
     rt.reach()
-    lines = [l for l in buf.getvalue().split("\n") if l and not l.startswith("\t")]
-    if lines != names:
+    if seen != names:
         return False
     import re
     norm = lambda t: re.sub(r"0x[0-9a-f]+", "0x", t)   # FROZENSET nodes print an object address
